@@ -364,3 +364,84 @@ def run_f(prog, res, floor=1):
                         "compares from %s: a slot that only one of them visits makes equal? objects hash differently (or unequal "
                         "ones collide systematically)" % (sorted(h), sorted(e)), unit=fn.unit.display))
     return stat
+
+
+# ------------------------------------------------------------------ C15.g
+def run_g(prog, res, floor=3, units=("hash.c",)):
+    """a chain is walked through the link that is still there: where a bucket-chain traversal advances its cursor by
+    reading a field of the cell it stands on (`ls = sexp_cdr(ls)`), no store to that same field of that same cursor
+    (`sexp_cdr(ls) = E`, E not built from the old link) may reach the advance without the cursor being re-assigned in
+    between - the walk would continue in whatever list E is, and the rest of the chain is never visited (a resize
+    that relinks cells this way drops every entry but the first of each bucket).  Saving the link first
+    (`next = sexp_cdr(ls); ...; ls = next`) and inserting behind the cursor (`sexp_cdr(ls) = cons(x, sexp_cdr(ls))`)
+    are the accepted forms."""
+    from cfg import elem_positions, enclosing_elem, reach_without
+    stat = res.stat("C15.g", "hash-table chain walks that advance through a field of the current cell: no store to that field of the "
+                    "cursor reaches the advance", floor=floor)
+
+    def field_of_var(fn, n):
+        """(var id, path) if node n is `v->...field` on a plain local / parameter v"""
+        n = fn.strip(n)
+        if fn.nodes[n]["k"] != "mem":
+            return None
+        root, path = fn.mempath(n)
+        r = fn.strip(root)
+        if fn.nodes[r]["k"] == "ref" and "d" in fn.nodes[r] and path:
+            return (fn.nodes[r]["d"], tuple(path))
+        return None
+
+    def reads_field(fn, n, key):
+        st = [n]
+        while st:
+            x = st.pop()
+            if field_of_var(fn, x) == key:
+                return True
+            st.extend(fn.nodes[x].get("c", ()))
+        return False
+    for fn in prog.all_funcs():
+        if fn.unit.name not in units or not fn.blocks:
+            continue
+        advances, stores, assigns = [], [], {}
+        for i, nd in enumerate(fn.nodes):
+            if nd["k"] != "bin" or nd["o"] != "=":
+                continue
+            l = fn.strip(nd["c"][0])
+            if fn.nodes[l]["k"] == "ref" and "d" in fn.nodes[l]:
+                v = fn.nodes[l]["d"]
+                assigns.setdefault(v, []).append(i)
+                key = field_of_var(fn, nd["c"][1])
+                if key is not None and key[0] == v:
+                    advances.append((i, key))
+            else:
+                key = field_of_var(fn, l)
+                if key is not None and not reads_field(fn, nd["c"][1], key):
+                    stores.append((i, key))
+        if not advances:
+            continue
+        pos = elem_positions(fn)
+        for (a, key) in advances:
+            stat.sites += 1
+            stat.obligations += 1
+            pa = enclosing_elem(fn, a, pos)
+            kills = {enclosing_elem(fn, j, pos) for j in assigns.get(key[0], ()) if j != a} - {None}
+            bad = None
+            for (s, k2) in stores:
+                if k2 != key:
+                    continue
+                ps = enclosing_elem(fn, s, pos)
+                if ps is None or pa is None or ps == pa:
+                    continue
+                if reach_without(fn, ps, pa, kills):
+                    bad = s
+                    break
+            if bad is None:
+                stat.discharged += 1
+                stat.sample({"function": fn.name, "advance": fn.txt(a)[:60], "where": fn.where(a)}, limit=6)
+            else:
+                res.add(Finding("C15", "C15.g.walk-through-overwritten-link", fn.name, "%s" % fn.txt(a)[:60], fn.where(bad),
+                                "%s overwrites `%s` (%s) and then advances its cursor through that very field (%s): the walk "
+                                "continues in the list just stored, the remaining cells of the chain are never visited - a hash "
+                                "table that moves its entries this way loses every entry of a bucket but the first when it grows"
+                                % (fn.name, fn.txt(fn.nodes[bad]["c"][0])[:50], fn.where(bad), fn.where(a)),
+                                unit=fn.unit.display))
+    return stat
